@@ -214,8 +214,10 @@ def generate(rng, tier):
                 ops.append(op)
                 want = _intended(op, d)
                 if want is None or want == 'RuntimeError':
-                    if _defect(op, d) and len(ops) > 1:
+                    if _defect(op, d):
                         ops.pop()    # a known-defect form on an input the property does not cover: nothing to learn
+                        if not ops:
+                            ops.append({'op': 'force_rational'})
                     break            # nothing follows an op whose outcome the property does not define
                 d = want[0]
             specs.append({'obj': o, 'ops': ops, 'params': _params(rng, o, npar)})
